@@ -99,6 +99,8 @@ def sweep_base(base, seed, agg, opts):
                 # ... and the refetch fails
                 for kind2 in fault_kinds_for(keys[k])[:4]:
                     plan.append((o, k, kind, {"then": kind2}))
+                # ... or the operating system refuses to delete the rejected file
+                plan.append((o, k, kind, {"then": "UNLINK_EACCES"}))
     # zombie schedules: a fault in the first pool chunk of a >= 6-miss parallel request, re-run under several
     # scheduling policies so that another chunk is still in flight when the request fails
     zplan = []
